@@ -1913,6 +1913,10 @@ func (g Gateway) Uint32SliceDelete(ctx context.Context, in *hydrapb.Uint32SliceD
 
 	for _, pair := range in.KeySlicePairs {
 
+		// the emptied treasure is deleted after its guard has been released:
+		// DeleteTreasure takes the record's guard itself
+		deleteTreasure := false
+
 		func() {
 
 			// try to load the treasure
@@ -1935,13 +1939,17 @@ func (g Gateway) Uint32SliceDelete(ctx context.Context, in *hydrapb.Uint32SliceD
 			// if the length is 0, we can delete the treasure
 			size, err := treasureObj.Uint32SliceSize()
 			if err != nil || size == 0 {
-				// delete the treasure
-				if err := swampObj.DeleteTreasure(pair.GetKey(), false); err != nil {
-					errorsWhileDelete = append(errorsWhileDelete, err.Error())
-				}
+				deleteTreasure = true
 			}
 
 		}()
+
+		if deleteTreasure {
+			// delete the treasure
+			if err := swampObj.DeleteTreasure(pair.GetKey(), false); err != nil {
+				errorsWhileDelete = append(errorsWhileDelete, err.Error())
+			}
+		}
 
 	}
 
